@@ -19,6 +19,9 @@ TOPO = {
     'line3': ('MeshLine1', [[0.0, 0.40625, 1.0, 1.71875]], [[0, 1, 2], [1, 2, 3]]),
     'line3perm': ('MeshLine1', [[1.0, 0.0, 1.71875, 0.40625]], [[1, 3, 0], [3, 0, 2]]),
     'tri1': ('MeshTri1', [[0.0, 1.0, 0.28125], [0.0, 0.125, 0.90625]], [[0], [1], [2]]),
+    # Heronian triangle (sides 13, 14, 15, rotated by the rational rotation (3/5, 4/5), scaled by 1/16): all edge lengths
+    # and unit normals are rational, so globally defined elements (which normalise normals) stay in exact arithmetic
+    'tri1heron': ('MeshTri1', [[0.0, 0.525, -0.4125], [0.0, 0.7, 0.7]], [[0], [1], [2]]),
     'tri2': ('MeshTri1', [[0.0, 1.0, 0.09375, 1.125], [0.0, 0.0625, 0.90625, 1.0625]], [[0, 1], [1, 2], [2, 3]]),
     'tri2perm': ('MeshTri1', [[1.125, 0.09375, 0.0, 1.0], [1.0625, 0.90625, 0.0, 0.0625]], [[3, 1], [2, 3], [1, 0]]),
     'tri3fan': ('MeshTri1', [[0.0, 1.0, 0.09375, 1.125, -0.84375], [0.0, 0.0625, 0.90625, 1.0625, 0.5625]],
